@@ -1,5 +1,6 @@
+import copy
 import itertools
-from typing import Callable, Generic, Iterable, Iterator, MutableSet, Optional, TypeVar
+from typing import Any, Callable, Generic, Iterable, Iterator, MutableSet, Optional, TypeVar
 from .. import base
 from ..spacing import Newline, Whitespace
 from ..block_comment import BlockComment
@@ -154,6 +155,10 @@ class RepeatedNodeWithInterleavingCommentsWrapper(properties.RepeatedNodeWrapper
         super().__init__(repeated, field)
         self._model = model
 
+    def __deepcopy__(self, memo: dict[int, Any]) -> 'RepeatedNodeWithInterleavingCommentsWrapper[_M]':
+        # A free-standing copy of the list; it belongs to a model once it is assigned to one.
+        return RepeatedNodeWithInterleavingCommentsWrapper(copy.deepcopy(self._repeated, memo), self._field, self._model)
+
     def claim_interleaving_comments(
             self,
             comments: Optional[Iterable[BlockComment]] = None,
@@ -219,6 +224,9 @@ class repeated_node_with_interleaving_comments_property(
         properties.replace_node(repeated, value.repeated)
         self._inner_field.__set__(instance, value.repeated)
         properties.drop_views_of(instance, instance.__dict__.get(self._attr))
-        # value may be bound to another model, or be the plain wrapper that copying produces.
-        instance.__dict__[self._attr] = RepeatedNodeWithInterleavingCommentsWrapper(
-            value.repeated, self._inner_field, instance)
+        if isinstance(value, RepeatedNodeWithInterleavingCommentsWrapper):
+            # Adopted, so that the caller's reference stays an alias of the model's list.
+            value._model = instance
+        else:
+            value = RepeatedNodeWithInterleavingCommentsWrapper(value.repeated, self._inner_field, instance)
+        instance.__dict__[self._attr] = value
